@@ -32,7 +32,7 @@ def toks(v):
     if t in 'ntf':
         return [t]
     if t == 'i':
-        return ['i%d' % v[1]]
+        return ['i%d' % v[1]] if abs(v[1]) < 10**15 else ['d%.17g' % v[1]]
     if t == 'd':
         x = v[1]
         if x == math.trunc(x) if not (math.isnan(x) or math.isinf(x)) else False:
@@ -507,6 +507,20 @@ def _oracle(f, args):
         a = args[2]
         if a[0] not in ('i', 'd') or not isint(a[1]) or not 0 <= a[1] < 256**nb: raise Err()
         buf += int(a[1]).to_bytes(nb, 'big' if args[1][1] == b'be' else 'little')
+        return B(buf), with0(args, B(buf))
+    if f in ('buffer/push-uint64', 'buffer/push-float32', 'buffer/push-float64'):
+        import struct
+        buf = buf0(args)
+        arity(args, 3, 3)
+        if args[1][0] != 'k' or args[1][1] not in (b'le', b'be', b'native'): raise Err()
+        a = args[2]
+        if a[0] not in ('i', 'd'): raise Err()
+        e = '>' if args[1][1] == b'be' else '<'
+        if f == 'buffer/push-uint64':
+            if not isint(a[1]) or not 0 <= a[1] <= 2**53: raise Err()
+            buf += struct.pack(e + 'Q', int(a[1]))
+        else:
+            buf += struct.pack(e + ('f' if f.endswith('32') else 'd'), float(a[1]))
         return B(buf), with0(args, B(buf))
     if f in ('buffer/bit', 'buffer/bit-set', 'buffer/bit-clear', 'buffer/bit-toggle'):
         buf = buf0(args)
